@@ -105,7 +105,31 @@ def run(ctx: Ctx) -> int:
             return hashlib.sha256(emit(parse(src)).encode()).hexdigest()
         except Exception as e:  # noqa: BLE001
             return "raise:" + type(e).__name__
+    import copy
+    import Reduino.transpile.parser as P_
+    import Reduino.transpile.emitter as E_
+
+    def snapshot():
+        snap = {}
+        for m in (P_, E_):
+            for k, v in vars(m).items():
+                if k != "_VERIF_SKIP_LOG" and not k.startswith("__") and isinstance(v, (dict, list, set, frozenset, tuple)):
+                    try:
+                        snap[m.__name__ + "." + k] = copy.deepcopy(v)
+                    except Exception:  # noqa: BLE001
+                        pass
+        return snap
+    state0 = snapshot()
+    # scripts that define functions / variables named like the names the evaluator treats specially
+    for nm_ in ("len", "abs", "max", "min", "int", "float", "bool", "str"):
+        scripts["shadow-fn-" + nm_] = scripts_pool.HEADER + f"def {nm_}(a, b):\n    return a + b\nx = {nm_}(1, 2)\nsleep(max(100, 250))\n"
+        ref["shadow-fn-" + nm_] = None
     names = list(scripts)
+    for nm_ in names:
+        if ref.get(nm_) is None:
+            ref[nm_] = h(scripts[nm_])        # (first in-process transpile; the subprocess reference exists for the others)
+    if snapshot() != state0:
+        ctx.fail("determinism:module-state", "transpiling changed module-level state of the transpiler", {"changed": sorted(k for k, v in snapshot().items() if state0.get(k) != v)})
     for rnd in range(ctx.n(3, 12)):
         order = names[:]
         rng.shuffle(order)
